@@ -44,6 +44,10 @@ pub fn lib_source(spec: &Value) -> String {
     if spec["native"].as_bool().unwrap_or(false) {
         return String::new();
     }
+    if spec["noexport"].as_bool().unwrap_or(false) {
+        // definitions, and no export declaration at all: the library exposes nothing
+        return "(define-library (lib noexp)\n  (import (scheme base))\n  (begin\n    (define weight 5)\n    (define (list . x) 'noexp-private)\n    (define (weigh) (+ weight 1))))\n".to_string();
+    }
     if spec["bare"].as_bool().unwrap_or(false) {
         // a library without any import declaration: its environment is empty but for its own
         // definitions, whatever the importer has
@@ -91,6 +95,12 @@ pub fn lib_source(spec: &Value) -> String {
         // only meaningful when the dependency is healthy; harmless otherwise
         exports.push(format!("via-{}-{}", s, j));
         body.push(format!("(define (via-{}-{}) ({}))", s, j, dep_next_name(spec, j)));
+    }
+    // a library that assigns one of ITS imported names (an error by the report; an
+    // implementation may refuse it or let it change that library's own view) — never anybody else's
+    if spec["spoiler"].as_bool().unwrap_or(false) {
+        body.push(format!("(define (spoil-{}!) (set! + -) 0)", s));
+        exports.push(format!("spoil-{}!", s));
     }
     // `twice` is a private macro in some libraries and a private procedure in the others:
     // what one library file defines as syntax is nobody else's business
@@ -443,6 +453,7 @@ fn gen_lib(rng: &mut Rng, short: &str, imports: Vec<String>, health: &str, allow
         "reexport": rng.chance(1, 2),
         "collide": rng.chance(1, 2),
         "macro": rng.chance(1, 2),
+        "spoiler": rng.chance(1, 3),
         "dep_style": rng.below(4),
         "fault": fault,
         "fault_kind": fault_kind,
@@ -458,6 +469,9 @@ struct Visible {
 }
 
 fn external_names(spec: &Value) -> Vec<(String, String)> {
+    if spec["noexport"].as_bool().unwrap_or(false) {
+        return vec![];
+    }
     if spec["native"].as_bool().unwrap_or(false) {
         return vec![("nat-box".to_string(), "box".to_string())];
     }
@@ -485,6 +499,9 @@ fn external_names(spec: &Value) -> Vec<(String, String)> {
     }
     v.push((format!("const-{}", s), "const".to_string()));
     v.push((format!("use-twice-{}", s), "use-helper".to_string()));
+    if spec["spoiler"].as_bool().unwrap_or(false) {
+        v.push((format!("spoil-{}!", s), "spoil".to_string()));
+    }
     if spec["collide"].as_bool().unwrap_or(false) {
         v.push((format!("use-aux-{}", s), "use-helper".to_string()));
         v.push((format!("aux-{}", s), "look".to_string()));
@@ -520,6 +537,7 @@ pub fn generate_c13(seed: u64, quick: bool) -> Value {
             "start": rng.range(0, 50),
         }));
     }
+    let with_noexport = rng.chance(1, 4);
     let with_native = rng.chance(1, 3);
     if with_native {
         libs.push(json!({
@@ -531,6 +549,14 @@ pub fn generate_c13(seed: u64, quick: bool) -> Value {
     let mut ops: Vec<Value> = vec![];
     let mut visible: BTreeMap<String, Visible> = BTreeMap::new();
     let with_base = with_native || rng.chance(2, 3);
+    if with_noexport {
+        // imported first; it binds nothing
+        libs.push(json!({
+            "short": "noexp", "noexport": true, "imports": [], "health": "healthy",
+            "delivery": if rng.chance(1, 3) { "registered" } else { "file" },
+        }));
+        ops.push(json!({"op": "eval", "k": "import-exposing-nothing", "t": "(import (lib noexp))"}));
+    }
     if with_base {
         ops.push(json!({"op": "eval", "k": "import-base", "t": "(import (scheme base))"}));
     }
@@ -589,8 +615,8 @@ pub fn generate_c13(seed: u64, quick: bool) -> Value {
         for _ in 0..probes {
             let vis: Vec<(&String, &Visible)> = visible.iter().collect();
             let (name, v) = *rng.pick(&vis);
-            if v.kind == "box" {
-                // not a procedure: nothing to apply at driver level
+            if v.kind == "box" || v.kind == "spoil" {
+                // not probed at driver level
             } else if v.kind == "next" || v.kind == "look" || v.kind.starts_with("via:") {
                 ops.push(json!({"op": "driver-call", "k": format!("driver-{}", class_head(&v.kind)), "name": name, "args": []}));
             } else if v.kind == "use-helper" || v.kind == "use-plus" {
@@ -660,7 +686,7 @@ pub fn generate_c13(seed: u64, quick: bool) -> Value {
             _ => {
                 // reference something the libraries keep to themselves
                 let s = rng.pick(&shorts).clone();
-                let cands = ["n".to_string(), "helper".to_string(), format!("peek-{}", s), "boom".to_string()];
+                let cands = ["n".to_string(), "helper".to_string(), format!("peek-{}", s), "boom".to_string(), "weight".to_string(), "(weigh)".to_string(), "(list 1 2)".to_string()];
                 ("reference-unexported".into(), rng.pick(&cands).clone())
             }
         };
@@ -862,6 +888,25 @@ fn execute_c13(case: Value) -> RunResult {
                         break;
                     }
                 };
+                if kind == "call-spoil" {
+                    // assigning an imported name is an error by the report: the implementation may
+                    // refuse it (then nothing happened) or apply it to that library's own view.
+                    // The model follows whichever it did; what matters is everybody else, later.
+                    let got = eval_outcome(&mut it, &text);
+                    if matches!(got, Outcome::Value(_)) {
+                        let _ = m.eval_top(&sx);
+                    }
+                    res.log.push(format!("{:>3} [{}] {} => {} | (not judged)", step, kind, text, got.short()));
+                    if let Outcome::Panic(p) = &got {
+                        res.violation = Some(Violation {
+                            signature: format!("C13/panic/{}", p.signature()),
+                            detail: json!({"step": step, "op": text, "panic": p.message}),
+                        });
+                        break;
+                    }
+                    res.count("probe.library_assigns_imported_name");
+                    continue;
+                }
                 let er = m.eval_top(&sx);
                 if let Err(RErr::Budget) | Err(RErr::Unsupported(_)) = &er {
                     res.invalid = Some(format!("reference model cannot judge step {}: {:?}", step, er.as_ref().err()));
